@@ -8,8 +8,26 @@ import Apko.Model.ExpandSplit
 namespace Apko.SplitLoop
 open Apko Apko.Authentic Apko.ExpandSplit
 
-theorem pulled_one (n a : Nat) (h : n ≤ a) : pulled 1 n a = n := by
-  simp [pulled]; omega
+theorem slowRead_one (rd : Nat → Nat) (left : Nat) : slowRead 1 rd left = 1 := by
+  unfold slowRead; omega
+
+theorem pullLoop_one (rd : Nat → Nat) (need avail : Nat) (h : need ≤ avail) :
+    ∀ fuel got, got ≤ need → need - got ≤ fuel → pullLoop 1 rd need avail fuel got = need := by
+  intro fuel
+  induction fuel with
+  | zero => intro got h1 h2; simp only [pullLoop]; omega
+  | succ fuel ih =>
+    intro got h1 h2
+    simp only [pullLoop]
+    split
+    · omega
+    · next hn =>
+      rw [slowRead_one]
+      exact ih (got + 1) (by omega) (by omega)
+
+/-- one-byte reads: whatever the chunks of the source are, exactly the member is pulled -/
+theorem pulled_one (rd : Nat → Nat) (n a : Nat) (h : n ≤ a) : pulled 1 rd n a = n :=
+  pullLoop_one rd n a h n 0 (Nat.zero_le _) (by omega)
 
 theorem memberAt_bounds (G : Gz) (bs : Bytes) (n : Nat) (d : Bytes) (h : memberAt G bs = some (n, d)) :
     0 < n ∧ n ≤ bs.length := by
@@ -20,12 +38,12 @@ theorem memberAt_bounds (G : Gz) (bs : Bytes) (n : Nat) (d : Bytes) (h : memberA
     · cases h
   · cases h
 
-theorem iter_ok (G : Gz) (H : Hashes) (c : Nat) (st st' : St) (b : Bool) (h : iter G H c st = .ok (st', b)) :
+theorem iter_ok (G : Gz) (H : Hashes) (c : Nat) (rd : Nat → Nat) (st st' : St) (b : Bool) (h : iter G H c rd st = .ok (st', b)) :
     ∃ s1, swNext G st = some s1 ∧
       ((s1.src = [] ∧ st' = s1 ∧ b = true) ∨
        (s1.src ≠ [] ∧ ∃ n d, memberAt G s1.src = some (n, d) ∧
           ((s1.reached = true ∧ readData G H s1 = .ok st' ∧ b = true) ∨
-           (s1.reached = false ∧ st' = readSlow H c s1 n ∧ b = false)))) := by
+           (s1.reached = false ∧ st' = readSlow H c rd s1 n ∧ b = false)))) := by
   unfold iter at h
   split at h
   · cases h
@@ -46,8 +64,8 @@ theorem iter_ok (G : Gz) (H : Hashes) (c : Nat) (st st' : St) (b : Bool) (h : it
           · next s2 hd => cases h; exact Or.inl ⟨hr, hd, rfl⟩
         · next hr => cases h; exact Or.inr ⟨by simpa using hr, rfl, rfl⟩
 
-theorem loop_ok (G : Gz) (H : Hashes) (c fuel : Nat) (st st2 : St) (h : loop G H c (fuel + 1) st = .ok st2) :
-    ∃ st1 b, iter G H c st = .ok (st1, b) ∧ ((b = true ∧ st2 = st1) ∨ (b = false ∧ loop G H c fuel st1 = .ok st2)) := by
+theorem loop_ok (G : Gz) (H : Hashes) (c : Nat) (rd : Nat → Nat) (fuel : Nat) (st st2 : St) (h : loop G H c rd (fuel + 1) st = .ok st2) :
+    ∃ st1 b, iter G H c rd st = .ok (st1, b) ∧ ((b = true ∧ st2 = st1) ∨ (b = false ∧ loop G H c rd fuel st1 = .ok st2)) := by
   rw [loop] at h
   split at h
   · cases h
@@ -69,14 +87,14 @@ theorem readData_ok (G : Gz) (H : Hashes) (s s2 : St) (h : readData G H s = .ok 
       · next hcs => cases h; exact ⟨t, es, ht, hes, hcs, rfl⟩
       · cases h
 
-theorem loop_checked (G : Gz) (H : Hashes) (hloc : G.Local) (src : Bytes) (st : St)
-    (h : loop G H 1 loopFuel { src := src } = .ok st) (hc : st.checked = true) :
+theorem loop_checked (G : Gz) (H : Hashes) (hloc : G.Local) (rd : Nat → Nat) (src : Bytes) (st : St)
+    (h : loop G H 1 rd loopFuel { src := src } = .ok st) (hc : st.checked = true) :
     ∃ r t es, ranges G src = some r ∧ r.data ≠ [] ∧
       st.streams = r.sig.toList ++ [r.control, r.data] ∧
       st.hashes = (r.sig.map H.sha1).toList ++ [H.sha1 r.control, H.sha256 r.data] ∧
       gunzipAll G r.data = some t ∧ st.tar = some t ∧ G.untar t = some es ∧ checkSums (libOf G H) es = true := by
-  obtain ⟨s1, b1, hi1, hrest1⟩ := loop_ok G H 1 3 _ _ h
-  obtain ⟨a1, hn1, hcase1⟩ := iter_ok _ _ _ _ _ _ hi1
+  obtain ⟨s1, b1, hi1, hrest1⟩ := loop_ok G H 1 rd 3 _ _ h
+  obtain ⟨a1, hn1, hcase1⟩ := iter_ok _ _ _ _ _ _ _ hi1
   have ha1 : a1 = { src := src, created := 1 } := by
     simp [swNext] at hn1; exact hn1.symm
   subst ha1
@@ -94,10 +112,10 @@ theorem loop_checked (G : Gz) (H : Hashes) (hloc : G.Local) (src : Bytes) (st : 
         obtain ⟨hpos0, hle0⟩ := memberAt_bounds _ _ _ _ hm0
         have hs1' : s1 = { src := src.drop n0, created := 1, first := src.take n0, streams := [src.take n0],
                            hashes := [H.sha1 (src.take n0)] } := by
-          rw [hs1]; simp [readSlow, pulled_one _ _ hle0]
+          rw [hs1]; simp [readSlow, pulled_one rd _ _ hle0]
         subst hs1'
-        obtain ⟨s2, b2, hi2, hrest2⟩ := loop_ok G H 1 2 _ _ h2
-        obtain ⟨a2, hn2, hcase2⟩ := iter_ok _ _ _ _ _ _ hi2
+        obtain ⟨s2, b2, hi2, hrest2⟩ := loop_ok G H 1 rd 2 _ _ h2
+        obtain ⟨a2, hn2, hcase2⟩ := iter_ok _ _ _ _ _ _ _ hi2
         have hdet : memberAt G (src.take n0) = some (n0, d0) := hloc _ _ _ hm0
         simp only [swNext, detect, hdet] at hn2
         cases hfn : G.firstName d0 with
@@ -146,12 +164,12 @@ theorem loop_checked (G : Gz) (H : Hashes) (hloc : G.Local) (src : Bytes) (st : 
                   have hs2' : s2 = { src := (src.drop n0).drop n1, created := 2, maxStreams := 3, first := src.take n0,
                                      streams := [src.take n0, (src.drop n0).take n1],
                                      hashes := [H.sha1 (src.take n0), H.sha1 ((src.drop n0).take n1)] } := by
-                    have hp : pulled 1 n1 (src.length - n0) = n1 := by
-                      have := pulled_one n1 _ hle1; simpa using this
+                    have hp : pulled 1 rd n1 (src.length - n0) = n1 := by
+                      have := pulled_one rd n1 _ hle1; simpa using this
                     rw [hs2]; simp [readSlow, hp]
                   subst hs2'
-                  obtain ⟨s3, b3, hi3, hrest3⟩ := loop_ok G H 1 1 _ _ h3
-                  obtain ⟨a3, hn3, hcase3⟩ := iter_ok _ _ _ _ _ _ hi3
+                  obtain ⟨s3, b3, hi3, hrest3⟩ := loop_ok G H 1 rd 1 _ _ h3
+                  obtain ⟨a3, hn3, hcase3⟩ := iter_ok _ _ _ _ _ _ _ hi3
                   simp [swNext] at hn3
                   subst hn3
                   rcases hcase3 with ⟨he, hs, hb⟩ | ⟨hne3, n2, d2, hm2, hcase3⟩
@@ -195,16 +213,16 @@ structure Final (G : Gz) (H : Hashes) (src0 : Bytes) (st : St) : Prop where
   unchecked : st.checked = false → st.tar = none
   checked : st.checked = true → ∃ t es, st.tar = some t ∧ G.untar t = some es ∧ checkSums (libOf G H) es = true
 
-theorem loop_inv (G : Gz) (H : Hashes) (c : Nat) (src0 : Bytes) : ∀ (fuel : Nat) (st st2 : St),
+theorem loop_inv (G : Gz) (H : Hashes) (c : Nat) (rd : Nat → Nat) (src0 : Bytes) : ∀ (fuel : Nat) (st st2 : St),
     st.streams.flatten ++ st.src = src0 → st.hashes.length = st.streams.length → st.tar = none → st.checked = false →
-    loop G H c fuel st = .ok st2 → Final G H src0 st2 := by
+    loop G H c rd fuel st = .ok st2 → Final G H src0 st2 := by
   intro fuel
   induction fuel with
   | zero => intro st st2 _ _ _ _ h; simp [loop] at h
   | succ fuel ih =>
     intro st st2 hp hl ht hck h
-    obtain ⟨st1, b, hi, hrest⟩ := loop_ok G H c fuel _ _ h
-    obtain ⟨s1, hn, hcase⟩ := iter_ok _ _ _ _ _ _ hi
+    obtain ⟨st1, b, hi, hrest⟩ := loop_ok G H c rd fuel _ _ h
+    obtain ⟨s1, hn, hcase⟩ := iter_ok _ _ _ _ _ _ _ hi
     obtain ⟨f1, f2, f3, f4, f5⟩ := swNext_fields G st s1 hn
     rcases hcase with ⟨he, hs, hb⟩ | ⟨hne, n, d, hm, hcase⟩
     · subst hb
